@@ -13,4 +13,6 @@ TRUSTED_BASE = ["pyvc VC generator; z3/cvc5 (cvc5 --strings-exp for the string l
                 "WTML template semantics: {1} level, {2} x, {3} y in decimal; str() of a non-negative int is its decimal "
                 "representation (digits only, injective); os.path.join joins with '/'"]
 ASSUMPTIONS = ["the history part (reuse of an output directory) and the written XML are covered by the bounded tier"]
-EXPLANATION = "path = template expansion for both naming schemes and unique parsing (injectivity) proved; workflows and histories bounded"
+EXPLANATION = ("path = template expansion for both naming schemes and unique parsing (injectivity); recorded levels / file type / url "
+               "data flow through Builder and StudyTiling; reuse of an output directory adopts the first recorded image set; TOAST "
+               "auto-tiling samples every image into the one recorded base level; other workflows and real XML are bounded")
